@@ -108,7 +108,7 @@ def labelOf? (j : Json) : Option (Lb × Option (Nat × Bool)) := do
     | [.str "spawnBegin", ks] => do some (Label.spawnBegin (← (← jArr? ks).mapM kindOf?))
     | [.str "spawn", r] => do some (Label.spawn (← jStr? r))
     | [.str "spawnEnd"] => some Label.spawnEnd
-    | [.str "check", r, on] => do some (Label.check (← jStr? r) (← jBool? on))
+    | [.str "check", r, o, on] => do some (Label.check (← jStr? r) (← jStr? o) (← jBool? on))
     | [.str "arrive", r, o, g, t] => do some (Label.arrive (← jStr? r) (← jStr? o) (← jBool? g) (← jBool? t))
     | [.str "listed", r] => do some (Label.listed (← jStr? r))
     | [.str "index", r, o] => do some (Label.index (← jStr? r) (← jStr? o))
@@ -131,7 +131,7 @@ def isHandle : Lb → Bool
 /-- replay: every label must be enabled and every snapshot must match -/
 def replay : GS → Nat → List (Lb × Option (Nat × Bool)) → List Bool → Json
   | s, _, [], acc =>
-    Json.mkObj [("accepted", .bool true), ("handled", .bool s.handled), ("ready", .bool (readyB s)),
+    Json.mkObj [("accepted", .bool true), ("handled", .bool s.handled), ("ready", .bool (readyB s)), ("ready1", .bool (ready1B s)),
                 ("everOn", .bool s.everOn), ("toggles", .num (JsonNumber.fromNat (toggles s))),
                 ("readyAtHandle", .arr (acc.reverse.map Json.bool).toArray)]
   | s, i, (l, snap) :: rest, acc =>
@@ -141,7 +141,7 @@ def replay : GS → Nat → List (Lb × Option (Nat × Bool)) → List Bool → 
       let okSnap := match snap with
         | some (n, on) => n == toggles s' && on == s'.isOn
         | none => true
-      if okSnap then replay s' (i + 1) rest (if isHandle l then readyB s' :: acc else acc)
+      if okSnap then replay s' (i + 1) rest (if isHandle l then ready1B s' :: acc else acc)
       else Json.mkObj [("accepted", .bool false), ("at", .num (JsonNumber.fromNat i)), ("reason", .str "snapshot"),
                        ("model", Json.mkObj [("n", .num (JsonNumber.fromNat (toggles s'))), ("on", .bool s'.isOn)])]
 
